@@ -121,6 +121,23 @@ class Effect(Node):
         return 'effect %s %s %s' % (self.what, show(self.target), ', '.join(show(a) for a in self.args))
 
 
+class Risk(Node):
+    """An operation on a non-constant value that may raise: (kind, exception class names, operand)."""
+    kind = 'risk'
+
+    def __init__(self, what, excs, operand=None, node=None, func=None):
+        self.what = what          # 'decode' | 'encode' | 'int' | 'next' | 'index' | 'key' | 'enumconv' | 'callparam' | 'ext:<dotted>'
+        self.excs = tuple(excs)
+        self.operand = operand
+        self.node = node
+        self.func = func
+        self.lineno = getattr(node, 'lineno', None)
+
+    def __repr__(self):
+        from .values import show
+        return 'risk %s %s on %s' % (self.what, '/'.join(self.excs), show(self.operand))
+
+
 class Inline(Node):
     """An inlined call of a repository function; ``Return`` nodes inside terminate only this block."""
     kind = 'inline'
